@@ -65,7 +65,7 @@ def scenario(big: bool = False) -> Any:
         if not d.pop("has_stop"):
             d["stop"] = None
         d.pop("burst_timeout", None)
-        d.update({"N": None, "W": None, "ends": True, "ack_type": "when_saved"})
+        d.update({"N": None, "W": None, "ends": True})
         d["horizon"] = cm.horizon_for(d, 10.0)
         d["drain"] = 0.0
         return d
@@ -80,6 +80,7 @@ def scenario(big: bool = False) -> Any:
         "burst_durs": st.lists(st.sampled_from([1.0, 1.0, 2.0, 3.0, 0.35]), min_size=1, max_size=4),
         "burst_at": st.sampled_from([0.0, 0.0, 0.3, 0.45]),
         "burst_timeout": st.sampled_from([None, None, None, 0.3, "0.3"]),
+        "ack_type": st.sampled_from(["when_saved", "when_saved", "when_executed", "when_received"]),
         "msgs": st.lists(msg, min_size=0, max_size=30),
         "stop": cm.times(120), "has_stop": st.sampled_from([False, False, False, True]),
         "save_latency": st.sampled_from([0.0, 0.0, 0.1]),
